@@ -90,6 +90,13 @@ impl Path {
     pub fn new(s: &String) -> (r: &Path) { unimplemented!() }
     #[verifier::external_body]
     pub fn to_string_lossy(&self) -> CowStr { unimplemented!() }
+    /// queries on a path (e.g. on a link target): functions of its components
+    #[verifier::external_body]
+    pub fn is_absolute(&self) -> (r: bool) ensures r == (self.comps@.len() > 0 && (self.comps@[0] is Root || self.comps@[0] is Prefix)) { unimplemented!() }
+    #[verifier::external_body]
+    pub fn is_relative(&self) -> (r: bool) ensures r == !(self.comps@.len() > 0 && (self.comps@[0] is Root || self.comps@[0] is Prefix)) { unimplemented!() }
+    #[verifier::external_body]
+    pub fn has_root(&self) -> (r: bool) ensures r == (self.comps@.len() > 0 && (self.comps@[0] is Root || self.comps@[0] is Prefix)) { unimplemented!() }
     /// std: "If path is absolute, it replaces the current path" - else the components are appended
     #[verifier::external_body]
     pub fn join(&self, rel: PathBuf) -> (r: PathBuf)
@@ -124,6 +131,11 @@ pub trait HasComps { spec fn comps_view(&self) -> Seq<Comp>; }
 impl HasComps for PathBuf { open spec fn comps_view(&self) -> Seq<Comp> { self.comps@ } }
 impl HasComps for Path { open spec fn comps_view(&self) -> Seq<Comp> { self.comps@ } }
 impl HasComps for &Path { open spec fn comps_view(&self) -> Seq<Comp> { self.comps@ } }
+/// R46: `p.components().any(|c| c == Component::X)` / `.any(|c| matches!(c, Component::X))`: some component is of that kind
+#[verifier::external_body]
+pub fn has_component(p: &Path, c: Component) -> (r: bool)
+    ensures r == exists|j: int| 0 <= j < p.comps@.len() && #[trigger] p.comps@[j] == comp_view(c),
+{ unimplemented!() }
 #[verifier::external_body]
 pub fn any_is_prefix<P: HasComps>(links: &Vec<PathBuf>, p: &P) -> (r: bool)
     ensures r == exists|j: int| 0 <= j < links@.len() && is_prefix((#[trigger] links@[j]).comps@, p.comps_view()),
@@ -213,10 +225,12 @@ pub proof fn lemma_inside_join(root: Seq<Comp>, rel: Seq<Comp>, created: Seq<Seq
     Raw('impl Package {\n'),
     Fn(PKG, 'extract', impl='impl Package',
        subs=[ret(), ERR,
+             ('std::path::Component::', 'Component::', None, 'R5-path of the stand-in enum'),
              ('pub fn extract(&self, dest: impl AsRef<Path>)', '#[verifier::loop_isolation(false)]\n    pub fn extract(&self, dest: &Path)', 1, 'R5-impl AsRef<Path> instantiated at &Path; verifier attribute'),
              ('        let dest = dest.as_ref();\n', '        let ghost mut created: Seq<Seq<Comp>> = Seq::empty();   // ghost: the symbolic links created so far\n', 1, 'R5-as_ref on &Path is the identity; ghost state declared'),
              ('relative_to_root(&file.metadata.path)?', 'relative_to_root(file.metadata.path.as_path())?', 1, 'R5-&PathBuf to &Path deref'),
              (re.compile(r'\b(\w+)\.iter\(\)\.any\(\|(\w+)\| (\w+)\.starts_with\(\2\)\)'), r'any_is_prefix(&\1, &\3)', 1, 'R37-any element is a prefix of the path'),
+             (re.compile(r'\b(\w+)\s*\.components\(\)\s*\.any\(\s*\|(\w+)\|\s*(?:\2 == (Component::\w+)|matches!\(\2, (Component::\w+)\))\s*\)'), lambda m: 'has_component(%s, %s)' % (m.group(1), m.group(3) or m.group(4)), None, 'R46-some component of the path is of a given kind'),
              (re.compile(r'fs::(create_dir_all|remove_file)\(&(\w+)\)'), r'fs::\1(&\2, Ghost(dest.comps@), Ghost(created))', None, 'R38-fs call with the ghost extraction context'),
              (re.compile(r'fs::set_permissions\(&(\w+), (\w+)\)'), r'fs::set_permissions(&\1, \2, Ghost(dest.comps@), Ghost(created))', None, 'R38'),
              (re.compile(r'fs::File::create\(&(\w+)\)'), r'fs::File::create(&\1, Ghost(dest.comps@), Ghost(created))', None, 'R38'),
